@@ -3,6 +3,7 @@
    TM.MapperStay. *)
 From TM Require ModifierSpec SpecTables.
 From TMGen Require Modifiers.
+From TM Require Loop LoopSpec LoopDevice LoopDeviceLemmas.
 From TM Require Import Base Mapper Monitors Trace MapperInv MapperProps MapperFire MapperNoAbs
                        MapperProv MapperForeign MapperEmpty MapperStay.
 
@@ -86,6 +87,27 @@ Proof.
   intros a L h e m t H1 H2. apply outputs_stay; [apply for_layout_ok_wf; exact H1 | apply has_absorbing_noabs; exact H2].
 Qed.
 Print Assumptions C05_in_effect_outputs_stay.
+
+(* At the device.  The theorems above are about the events the mapper returns.
+   The event loop adds writes of its own (the custom-repeat chords) and decides
+   when batches are written; in EVERY configuration of EVERY run of the loop the
+   keys down on the virtual keyboard (acknowledged writes + the one waited on)
+   are exactly the mapper's held set for the inputs read so far - so no write of
+   the loop (a chord, a release-all, a batch written twice or not at all) lifts
+   an output of a mapping that remains in effect, or a foreign key that is
+   still held.  The extracted monitor LoopDevice.device_check runs on the real
+   loop's transcripts; its clause D_step (reported as C02.device) is listened
+   to by this property as well. *)
+Theorem C05_loop_writes_leave_the_mapper_held_set :
+  forall (is_action : key -> bool) (L : layout),
+    for_layout_ok L = true ->
+    forall (rs : list Loop.resp) (cs : list Loop.call) (o : Loop.outcome) (k : nat) (x : LoopSpec.conf),
+    Loop.run is_action L rs = (cs, o) -> LoopSpec.conf_at is_action L rs k = Some x ->
+    forall key : key,
+      In key (apply_evs [] (LoopDeviceLemmas.written_at cs rs k x))
+      <-> In key (held_all is_action L (LoopSpec.minputs false (firstn k (combine cs rs)))).
+Proof. intros ia L Hok rs cs o k x. exact (LoopDeviceLemmas.loop_device_held_is_mapper_held ia L rs cs o k x Hok). Qed.
+Print Assumptions C05_loop_writes_leave_the_mapper_held_set.
 
 (* "Modifier" in this property means one of the eight standard modifiers
    (SpecTables.spec_modifier_keys: left/right Shift, Ctrl, Alt, Meta): the
